@@ -372,6 +372,41 @@ class VerifyFailed(AssertionError):
     pass
 
 
+def damage(p, ns, kind):
+    """The adversary: damages AP samples of a shank ap.bin (never the sync column).
+    0 / 1 / 2: one value in the first / a middle / the last frame;
+    3: two values of one frame exchanged between two channels;  4: two values of one channel exchanged between
+    two frames;  5: +k on one value and -k on another;  6: two whole channels exchanged.
+    Kinds 3-6 keep every sum (over the frame, the channel or the file) unchanged."""
+    size = p.stat().st_size
+    row = size // ns
+    if row < 6 or size != row * ns:
+        with builtins.open(p, "r+b") as f:      # not a whole recording: flip the first bytes
+            b = f.read(2)
+            f.seek(0)
+            f.write(bytes(x ^ 0x55 for x in b))
+        return
+    a = np.fromfile(p, dtype=np.int16).reshape(ns, row // 2)
+    nc = a.shape[1] - 1                          # AP columns
+    r0, r1 = ns // 3, (2 * ns) // 3
+    if kind in (0, 1, 2):
+        r, c = {0: (0, 0), 1: (ns // 2, 3), 2: (ns - 1, 0)}[kind]
+        a[r, c] ^= 0x5555
+    elif kind == 3:
+        c = next(c for c in range(nc - 1) if a[r0, c] != a[r0, c + 1])
+        a[r0, c], a[r0, c + 1] = a[r0, c + 1], a[r0, c]
+    elif kind == 4:
+        c, r2 = next((c, r2) for c in range(nc) for r2 in range(r0 + 1, ns) if a[r0, c] != a[r2, c])
+        a[r0, c], a[r2, c] = a[r2, c], a[r0, c]
+    elif kind == 5:
+        a[r0, 1] += 37
+        a[r1, 2] -= 37
+    else:
+        c = next(c for c in range(nc - 1) if not np.array_equal(a[:, c], a[:, c + 1]))
+        a[:, [c, c + 1]] = a[:, [c + 1, c]]
+    a.tofile(p)
+
+
 class patched:
     """Installs the site wrappers for the duration of one method call of one converter."""
 
@@ -417,15 +452,7 @@ class patched:
                 p = owner_path(root, 10 + 2 * corrupt, 0)
                 S.hit(500000 + pcode(root, p))
                 if p.exists():
-                    # damage one AP sample (never the sync column): first, middle or last frame
-                    ns = NS_OF_W[w]
-                    row = p.stat().st_size // ns
-                    off = {0: 0, 1: (ns // 2) * row + 6, 2: (ns - 1) * row}[cpos] if row else 0
-                    with builtins.open(p, "r+b") as f:
-                        f.seek(off)
-                        b = f.read(2)
-                        f.seek(off)
-                        f.write(bytes(x ^ 0x55 for x in b))
+                    damage(p, NS_OF_W[w], cpos)
                     S.touched = True
             S.pre()                        # interruption before the method is entered
             S.done(650000)                 # check_NP24 entered (it clears check_completed first)
@@ -1456,6 +1483,11 @@ def make_tasks(ctx, base):
     for cfg, k in (("np24s1w3", 0), ("np24s4w2", 0), ("np24s4w2", 3)):
         add(cfg, [], [mkrun(t=-1, post=1, dele=1, comp=c, ow=o, corrupt=k, cpos=(c + 2 * o + k) % 3)
                       for c in (0, 1) for o in (0, 1)][:4 if th else (3 if cfg == "np24s1w3" else 1)], "none", 1)
+    # damage that keeps every sum: values exchanged between channels / frames, +k/-k, two channels exchanged
+    for cp in (3, 4, 5, 6):
+        add("np24s1w3", [], [mkrun(t=-1, post=1, dele=1, comp=cp % 2, ow=0, corrupt=0, cpos=cp)], "none", 1)
+        if th or cp in (3, 6):
+            add("np24s4w2", [], [mkrun(t=-1, post=1, dele=1, comp=0, ow=0, corrupt=cp % 4, cpos=cp)], "none", 1)
     # NP2.1: every crash point, fresh and after earlier runs, plain and pre-compressed original
     # (a follow-up after every interrupted run: interrupted-then-rerun histories, plain and forced)
     add("np21w2", [], T if th else [t for t in T if (t["post"], t["del"], t["comp"], t["ow"]) in
@@ -1494,6 +1526,9 @@ def make_tasks(ctx, base):
     for cfg in ("np21w2", "np24s1w1"):
         for c1 in (0, 1):
             add(cfg, [mkrun(t=-1, post=0, dele=0, comp=c1)], [mkrun(t=-1, post=0, dele=0, comp=1 - c1, ow=0)], "none", 0)
+    # original and lf output in different formats (.cbin next to lf.bin; .cbin next to a half-compressed lf)
+    add("np21w1c", [mkrun(t=-1, post=0, dele=0, comp=0)], [mkrun(t=-1, post=0, dele=0, comp=0, ow=0)], "none", 0)
+    add("np21w2", [mkrun(t=-1, post=0, dele=0, comp=1, crash=10)], [mkrun(t=-1, post=0, dele=0, comp=1, ow=0)], "none", 0)
     # file names with a dataset UUID (and "ap" elsewhere in the name): the lf output must not alias the original
     add("np21w2u", [], [mkrun(t=-1, post=0, dele=0, comp=1), mkrun(t=-1, post=0, dele=0, comp=0, ow=1)]
         + ([mkrun(t=-1, post=1, dele=1, comp=1, ow=1), mkrun(t=-1, post=0, dele=0, comp=0)] if th else []),
@@ -1536,6 +1571,9 @@ def object_tasks(ctx, base):
     # stale check_completed (F-C04-e): failed direct check, interrupted forced re-run, then delete_NP24
     for cp in (0, 1, 2):
         s1.append(((1, 0, 0), [P(), K(corrupt=0, cpos=cp), O(1, 1, 0), D()]))
+    # split without verification, sum-preserving damage, then the separate check_NP24() / delete_NP24()
+    for cp in (3, 4, 5, 6):
+        s1.append(((0, 1, 0), [P(), K(corrupt=0, cpos=cp), D()]))
     s1 += [((1, 0, 0), [P(), K(corrupt=0), K(), K()]),
            ((1, 1, 1), [P(crash=13), P(ow=1, crash=5), D()]),
            ((1, 1, 1), [P(crash=17), P(ow=1, crash=1), D()]),
